@@ -406,3 +406,29 @@ package builder
 //@   loop 0 decreases elemCount - i
 
 // ---- END GENERATED ----
+
+// ---------------------------------------------------------------------------------------------
+// Struct field paths (C04). Every field of the destination struct - also the fields of embedded
+// structs, at any depth - gets an index path of its own: building the paths never writes into the
+// storage of the path it was handed (a path built with append(parentPath, i) would, as soon as the
+// parent has spare capacity, and sibling fields would then share one path).
+// The frame below says exactly that: nothing but freshly allocated memory, the descriptor map and the
+// heap objects created here is written; in particular not the [off, off+cap) range of currentPath.
+//@ iface builder.BuilderGeneratorGetter
+//@   modifies smHas, alloc, wgOpen
+//@   may_panic
+//@ iface reflect.Type.NumField
+//@   ensures result >= 0 && result <= 0x10000
+//@ iface reflect.Type.Field
+//@   ensures result.Type != nil
+//@ extern reflect::(StructField).IsExported
+//@ func (*structBuilderField).applyTags
+//@   trusted
+//@   modifies _this.Name, alloc
+//@ func makeGeneratorDescs
+//@   requires generatorDescs != nil && dstType != nil && getBuilderGeneratorForType != nil
+//@   modifies mapof(generatorDescs), smHas, wgOpen, alloc, structBuilderField.Name, structBuilderField.IndexPath, structBuilderGeneratorDesc.field, structBuilderGeneratorDesc.builderGenerator
+//@   may_panic
+//@   loop 0 modifies mapof(generatorDescs), smHas, wgOpen, alloc, structBuilderField.Name, structBuilderField.IndexPath, structBuilderGeneratorDesc.field, structBuilderGeneratorDesc.builderGenerator
+//@   loop 0 invariant 0 <= i
+//@   loop 0 decreases 0x10000 - i
